@@ -77,3 +77,106 @@ pub fn active_unit(ctx: &Ctx, rep: &mut Report) {
 pub fn active_unit(_ctx: &Ctx, rep: &mut Report) {
     rep.notes.push("built without --cfg kodama_verif: Active unit-level session skipped".into());
 }
+
+// ---------------------------------------------------------------------------
+// LinkageHeap: op sequences on the real heap (hook `VHeap`) vs the Lean model's heap
+// ---------------------------------------------------------------------------
+
+#[cfg(kodama_verif)]
+fn parse_dump(d: &str) -> String {
+    // "VHeap(LinkageHeap { heap: [..], observations: [..], priorities: [..], removed: [..] })"
+    let field = |name: &str| -> String {
+        let k = d.find(&format!("{}: [", name)).map(|i| i + name.len() + 3).unwrap_or(0);
+        let e = d[k..].find(']').map(|j| k + j).unwrap_or(k);
+        d[k..e].split(',').map(|s| s.trim()).filter(|s| !s.is_empty()).map(|s| match s { "false" => "0".to_string(), "true" => "1".to_string(), x => x.to_string() }).collect::<Vec<_>>().join(",")
+    };
+    format!("heap={} obs={} removed={}", field("heap"), field("observations"), field("removed"))
+}
+
+#[cfg(kodama_verif)]
+pub fn heap_unit(ctx: &Ctx, rep: &mut Report) {
+    use crate::core::{checked_build, classify_panic, f64_to_bits, run_driver};
+    use std::panic::{self, AssertUnwindSafe};
+    if ctx.driver == "none" {
+        return;
+    }
+    let mut rng = Rng::new(ctx.seed ^ 0x4EA9);
+    let rounds = if ctx.thorough { 3000 } else { 300 };
+    let chk = if checked_build() { 1 } else { 0 };
+    let mut lines: Vec<String> = vec![];
+    let mut impl_out: Vec<String> = vec![];
+    for round in 0..rounds {
+        let n = rng.range(0, 24);
+        let tie_heavy = rng.below(2) == 0;
+        let val = |rng: &mut Rng| -> f64 { if tie_heavy { (rng.below(4) + 1) as f64 } else { rng.unit() * 100.0 } };
+        let mut h = kodama::verif::VHeap::<f64>::new();
+        let id = round;
+        let mut push = |line: String, out: String, lines: &mut Vec<String>, impl_out: &mut Vec<String>| {
+            lines.push(line);
+            impl_out.push(out);
+        };
+        h.reset(n);
+        push(format!("heap {} 64 {} reset {}", id, chk, n), format!("ok {}", parse_dump(&h.dump())), &mut lines, &mut impl_out);
+        let prios: Vec<f64> = (0..n).map(|_| val(&mut rng)).collect();
+        let r = panic::catch_unwind(AssertUnwindSafe(|| h.heapify(&prios)));
+        let pl: Vec<String> = prios.iter().map(|&x| f64_to_bits(false, x).to_string()).collect();
+        push(format!("heap {} 64 {} heapify {}", id, chk, pl.join(" ")), match r { Ok(()) => format!("ok {}", parse_dump(&h.dump())), Err(_) => format!("panic {}", classify_panic()) }, &mut lines, &mut impl_out);
+        let nops = rng.range(2, 30);
+        for _ in 0..nops {
+            match rng.below(6) {
+                0 | 1 => {
+                    let r = panic::catch_unwind(AssertUnwindSafe(|| h.pop()));
+                    let out = match r {
+                        Ok(Some(o)) => format!("ok some {} {}", o, parse_dump(&h.dump())),
+                        Ok(None) => format!("ok none {}", parse_dump(&h.dump())),
+                        Err(_) => format!("panic {}", classify_panic()),
+                    };
+                    push(format!("heap {} 64 {} pop", id, chk), out, &mut lines, &mut impl_out);
+                }
+                2 => {
+                    let out = match h.peek() { Some(o) => format!("ok some {}", o), None => "ok none".to_string() };
+                    push(format!("heap {} 64 {} peek", id, chk), out, &mut lines, &mut impl_out);
+                }
+                3 => {
+                    let o = rng.range(0, n.max(1) + 1);
+                    let r = panic::catch_unwind(AssertUnwindSafe(|| h.priority(o)));
+                    let out = match r { Ok(v) => format!("ok {}", f64_to_bits(false, v)), Err(_) => format!("panic {}", classify_panic()) };
+                    push(format!("heap {} 64 {} prio {}", id, chk, o), out, &mut lines, &mut impl_out);
+                }
+                _ => {
+                    let o = rng.range(0, n.max(1));
+                    let p = val(&mut rng);
+                    let r = panic::catch_unwind(AssertUnwindSafe(|| h.set_priority(o, p)));
+                    let out = match r { Ok(()) => format!("ok {}", parse_dump(&h.dump())), Err(_) => format!("panic {}", classify_panic()) };
+                    push(format!("heap {} 64 {} setprio {} {}", id, chk, o, f64_to_bits(false, p)), out, &mut lines, &mut impl_out);
+                }
+            }
+        }
+    }
+    crate::core::install_panic_hook();
+    let model = match run_driver(&ctx.driver, &lines) {
+        Ok(v) => v,
+        Err(e) => {
+            rep.fail("model", format!("driver error: {}", e), vec![], vec![], vec![]);
+            return;
+        }
+    };
+    for (k, (m, i)) in model.iter().zip(&impl_out).enumerate() {
+        rep.count("heap_unit_ops");
+        // the model also prints priorities; the hook's Debug dump is compared without them
+        let m_cmp = match m.find(" prio=") { Some(p) => m[..p].to_string(), None => m.clone() };
+        let same = if m_cmp.starts_with("panic") && i.starts_with("panic") { true } else { &m_cmp == i };
+        if !same {
+            // the op sequence of this heap up to here
+            let id = lines[k].split(' ').nth(1).unwrap_or("").to_string();
+            let ops: Vec<String> = lines[..=k].iter().filter(|l| l.split(' ').nth(1) == Some(id.as_str())).cloned().collect();
+            rep.fail("model", "LinkageHeap (hook VHeap) and the model's heap differ after this op sequence".into(), ops, vec![i.clone()], vec![m.clone()]);
+            return;
+        }
+    }
+}
+
+#[cfg(not(kodama_verif))]
+pub fn heap_unit(_ctx: &Ctx, rep: &mut Report) {
+    rep.notes.push("built without --cfg kodama_verif: heap unit-level session skipped".into());
+}
